@@ -33,7 +33,15 @@ EXTRA = ['--frequency-increment=%s', '--frequency-steps=%s', '--ff-distance=%s',
          '--load=%s', '--rlc-load=%s,%s,%s', '--trap-load=%s,%s,%s', '--taper-wire=%s,%s,%s,%s', '--attach-load=%s,%s',
          '--excitation-pulse=%s', '--option=near-field', '--option=far-field-absolute', '--boundary=circular',
          '--geo-rotate=%s,%s,%s,%s', '--geo-translate=%s,%s,%s,%s', '-w %s,%s,%s,%s,%s,%s,%s,%s', '-a %s,%s,%s,%s,%s',
-         '-H %s,%s,%s,%s,%s,%s', '--laplace-load-a=%s,%s', '--laplace-load-b=%s,%s', '--mininec-version=%s']
+         '-H %s,%s,%s,%s,%s,%s', '--laplace-load-a=%s,%s', '--laplace-load-b=%s,%s', '--mininec-version=%s',
+         '--attach-load=%s,all,%s', '--attach-load=%s,all', '--attach-load=%s,%s,%s', '--excitation-pulse=%s,%s',
+         '--geo-scale=%s,%s', '--geo-rotate=%s,%s,%s,%s,%s', '--geo-translate=%s,%s,%s,%s,%s', '--load=%s']
+
+# minimised past failures: run first
+CORPUS = [
+    ['--load=1', '--attach-load=1,all,7'],
+    ['-w', '5,0,0,0,0,0,0.6347149590416762,0.042314330602778415', '--taper-wire=1,1,0,0.4952720600888217'],
+]
 
 
 def mutate_field(rng, opt):
